@@ -1,7 +1,7 @@
 ----------------------------- MODULE Factory -----------------------------
 (***************************************************************************)
-(* Whole factories at design level: sources, machines and sinks as process *)
-(* state machines (ONE ACTION PER SEGMENT BETWEEN TWO `yield`s of the      *)
+(* Whole factories at design level: sources, machines, splitters, combiners *)
+(* and sinks as process state machines (ONE ACTION PER SEGMENT BETWEEN TWO `yield`s of the      *)
 (* generator in nodes/source.py, nodes/machine.py, nodes/sink.py) composed *)
 (* with StoreCore stores as edges (Buffer, Fleet).                         *)
 (*                                                                         *)
@@ -78,6 +78,7 @@ FA == -1      \* policy FIRST_AVAILABLE
 RRP == -2     \* policy ROUND_ROBIN; a policy >= 0 is a constant edge index
 Sel(pol, cnt, n) == IF pol = RRP THEN (cnt % n) + 1 ELSE pol + 1     \* 1-based position in the edge list
 
+PosOfEdge(i, j) == CHOOSE k \in 1..Len(N(i).ins) : N(i).ins[k] = j
 Idle == [pc |-> "idle", rem |-> 0, item |-> 0, toks |-> <<>>, k |-> 0, rr |-> 0, rro |-> 0, slots |-> 0]
 
 ---------------------------------------------------------------------------
@@ -94,7 +95,7 @@ Init ==
               [] OTHER -> [Idle EXCEPT !.pc = "setup", !.rem = n.setup]]
   /\ W = [i \in 1..Len(Configs[cid].nodes) |-> <<>>]
   /\ place = <<>>
-  /\ ctr = [i \in 1..Len(Configs[cid].nodes) |-> [gen |-> 0, disc |-> 0, proc |-> 0, recv |-> 0]]
+  /\ ctr = [i \in 1..Len(Configs[cid].nodes) |-> [gen |-> 0, disc |-> 0, proc |-> 0, recv |-> 0, org |-> <<>>]]
 
 Step == steps' = steps + 1 /\ now' = now /\ cid' = cid
 
@@ -216,17 +217,25 @@ MachPull(i) ==
      IN /\ d.r[1] = "item"
         /\ E' = [E1 EXCEPT ![j] = d.s]
         /\ place' = [place EXCEPT ![x] = <<"node", i>>]
-        /\ W' = [W EXCEPT ![i] = Append(@, [pc |-> "proc", rem |-> pd, item |-> x, toks |-> <<>>, id |-> S[i].k + 1])]
+        /\ W' = [W EXCEPT ![i] = Append(@, [pc |-> "proc", rem |-> pd, item |-> x, queue |-> <<>>, toks |-> <<>>, id |-> S[i].k + 1])]
         /\ S' = [S EXCEPT ![i] = [@ EXCEPT !.pc = "req", !.toks = <<>>, !.k = @ + 1]]
   /\ UNCHANGED <<tc, ctr>> /\ Step
 
-WorkerOf(i, w) == W[i][w]
+IsWorkNode(i) == N(i).type \in {"machine", "splitter", "combiner"}
+WPid(i, w) == Pid(i, 1 + (W[i][w].id % 8))
 
-\* the processing delay is over: offer the item downstream
+\* what a worker does after its current item has left (pushed or dropped): the next item of a splitter's
+\* pallet, or release of the worker slot
+AfterItem(wk) == IF wk.queue # <<>> THEN [wk EXCEPT !.pc = "offer", !.item = Head(wk.queue), !.queue = Tail(wk.queue), !.toks = <<>>]
+                 ELSE [wk EXCEPT !.pc = "rel", !.item = 0, !.toks = <<>>]
+
+\* the processing delay is over (machine, splitter) / the worker was started (combiner): offer the current item
 WorkDone(i, w) ==
-  /\ N(i).type = "machine" /\ w \in 1..Len(W[i]) /\ W[i][w].pc = "proc" /\ W[i][w].rem = 0
+  /\ IsWorkNode(i) /\ w \in 1..Len(W[i])
+  /\ (W[i][w].pc = "proc" /\ W[i][w].rem = 0) \/ W[i][w].pc = "offer"
   /\ LET outs == N(i).outs
-         me   == Pid(i, 1 + (W[i][w].id % 8))
+         me   == WPid(i, w)
+         x    == W[i][w].item
      IN IF N(i).pout = FA THEN
           IF N(i).blocking THEN
             LET r == ReserveAll(E, tc, outs, me, TRUE, <<>>) IN
@@ -239,9 +248,9 @@ WorkDone(i, w) ==
               /\ E' = r.E /\ tc' = r.tc /\ W' = [W EXCEPT ![i][w] = [@ EXCEPT !.pc = "sub", !.toks = r.toks]]
               /\ UNCHANGED <<place, ctr, S>>
             ELSE
-              /\ place' = [place EXCEPT ![W[i][w].item] = <<"disc", i>>]
+              /\ place' = [place EXCEPT ![x] = <<"disc", i>>]
               /\ ctr' = [ctr EXCEPT ![i].disc = @ + 1]
-              /\ W' = [W EXCEPT ![i][w] = [@ EXCEPT !.pc = "rel", !.item = 0]]
+              /\ W' = [W EXCEPT ![i][w] = AfterItem(@)]
               /\ UNCHANGED <<E, tc, S>>
         ELSE
           LET m == Sel(N(i).pout, S[i].rro, Len(outs)) j == outs[m] IN
@@ -251,33 +260,130 @@ WorkDone(i, w) ==
             /\ S' = [S EXCEPT ![i].rro = @ + 1]
             /\ UNCHANGED <<place, ctr>>
           ELSE
-            /\ place' = [place EXCEPT ![W[i][w].item] = <<"disc", i>>]
+            /\ place' = [place EXCEPT ![x] = <<"disc", i>>]
             /\ ctr' = [ctr EXCEPT ![i].disc = @ + 1]
-            /\ W' = [W EXCEPT ![i][w] = [@ EXCEPT !.pc = "rel", !.item = 0]]
+            /\ W' = [W EXCEPT ![i][w] = AfterItem(@)]
             /\ S' = [S EXCEPT ![i].rro = @ + 1]
             /\ UNCHANGED <<E, tc>>
   /\ Step
 
 WorkPut(i, w) ==
-  /\ N(i).type = "machine" /\ w \in 1..Len(W[i]) /\ W[i][w].pc \in {"wait", "sub"} /\ AnyTrig(W[i][w].toks)
+  /\ IsWorkNode(i) /\ w \in 1..Len(W[i]) /\ W[i][w].pc \in {"wait", "sub"} /\ AnyTrig(W[i][w].toks)
   /\ LET toks == W[i][w].toks
          k    == FirstTrig(toks)
          j    == toks[k][1]
          E1   == CancelAll(E, Others(toks, k), TRUE)
-         me   == Pid(i, 1 + (W[i][w].id % 8))
-         d    == DoPutId(E1[j], me, toks[k][2], 0, EdgeDelay(j), W[i][w].item)
+         d    == DoPutId(E1[j], WPid(i, w), toks[k][2], 0, EdgeDelay(j), W[i][w].item)
      IN /\ d.r = <<"ok">>
         /\ E' = [E1 EXCEPT ![j] = d.s]
         /\ place' = [place EXCEPT ![W[i][w].item] = <<"edge", j>>]
         /\ ctr' = [ctr EXCEPT ![i].proc = @ + 1]
-        /\ W' = [W EXCEPT ![i][w] = [@ EXCEPT !.pc = "rel", !.item = 0, !.toks = <<>>]]
+        /\ W' = [W EXCEPT ![i][w] = AfterItem(@)]
   /\ UNCHANGED <<tc, S>> /\ Step
 
 \* worker_thread.release(): the slot is free again
 WorkRelease(i, w) ==
-  /\ N(i).type = "machine" /\ w \in 1..Len(W[i]) /\ W[i][w].pc = "rel"
+  /\ IsWorkNode(i) /\ w \in 1..Len(W[i]) /\ W[i][w].pc = "rel"
   /\ W' = [W EXCEPT ![i] = DropAt(@, w)]
   /\ S' = [S EXCEPT ![i].slots = @ - 1]
+  /\ UNCHANGED <<E, tc, place, ctr>> /\ Step
+
+---------------------------------------------------------------------------
+(* Splitter.behaviour: reserve (and, FIRST_AVAILABLE, commit to one in-edge) BEFORE asking for the worker;   *)
+(* the pallet is taken when the worker is granted; the worker emits the contents one by one, then the pallet *)
+Contents(q) == LET xs == {x \in 1..Len(place) : place[x] = <<"pal", q>>} IN
+               \* in packing order = item id order within a pallet is not pinned by the model: use ascending ids
+               [k \in 1..Cardinality(xs) |-> CHOOSE x \in xs : Cardinality({y \in xs : y < x}) = k - 1]
+
+SplSetup(i) ==
+  /\ N(i).type \in {"splitter", "combiner"} /\ S[i].pc = "setup" /\ S[i].rem = 0
+  /\ S' = [S EXCEPT ![i] = [@ EXCEPT !.pc = "req"]]
+  /\ UNCHANGED <<E, tc, W, place, ctr>> /\ Step
+
+SplReq(i) ==
+  /\ N(i).type = "splitter" /\ S[i].pc = "req"
+  /\ LET ins == N(i).ins
+         js  == IF N(i).pin = FA THEN ins ELSE <<ins[Sel(N(i).pin, S[i].rr, Len(ins))]>>
+         r   == ReserveAll(E, tc, js, Pid(i, 0), FALSE, <<>>)
+     IN /\ E' = r.E /\ tc' = r.tc
+        /\ S' = [S EXCEPT ![i] = [@ EXCEPT !.pc = "wait", !.toks = r.toks, !.rr = IF N(i).pin = FA THEN @ ELSE @ + 1]]
+  /\ UNCHANGED <<W, place, ctr>> /\ Step
+
+\* a token triggered: keep the lowest triggered one, withdraw the others, ask for the worker
+SplChoose(i) ==
+  /\ N(i).type = "splitter" /\ S[i].pc = "wait" /\ AnyTrig(S[i].toks)
+  /\ LET toks == S[i].toks k == FirstTrig(toks) IN
+       /\ E' = CancelAll(E, Others(toks, k), FALSE)
+       /\ S' = [S EXCEPT ![i] = [@ EXCEPT !.pc = "reqw", !.toks = <<toks[k]>>]]
+  /\ UNCHANGED <<tc, W, place, ctr>> /\ Step
+
+SplPull(i) ==
+  /\ N(i).type = "splitter" /\ S[i].pc = "reqw" /\ S[i].slots < 1
+  /\ LET j  == S[i].toks[1][1]
+         d  == DoGet(E[j], Pid(i, 0), S[i].toks[1][2])
+         q  == d.r[2]
+         pd == N(i).pd[(S[i].k % Len(N(i).pd)) + 1]
+         cs == Contents(q)
+     IN /\ d.r[1] = "item"
+        /\ E' = [E EXCEPT ![j] = d.s]
+        /\ place' = [place EXCEPT ![q] = <<"node", i>>]
+        /\ W' = [W EXCEPT ![i] = Append(@, [pc |-> "proc", rem |-> pd, item |-> IF cs = <<>> THEN q ELSE Head(cs),
+                                           queue |-> IF cs = <<>> THEN <<>> ELSE Append(Tail(cs), q), toks |-> <<>>, id |-> S[i].k + 1])]
+        /\ S' = [S EXCEPT ![i] = [@ EXCEPT !.pc = "req", !.toks = <<>>, !.k = @ + 1, !.slots = @ + 1]]
+  /\ UNCHANGED <<tc, ctr>> /\ Step
+
+---------------------------------------------------------------------------
+(* Combiner.behaviour: pallet from in-edge 1, then recipe[e] items from every other in-edge e (a gather-all batch *)
+(* consumed token by token), then the delay once the single worker is free, then a worker pushes the pallet       *)
+RECURSIVE Repeat(_, _)
+Repeat(x, n) == IF n = 0 THEN <<>> ELSE <<x>> \o Repeat(x, n - 1)
+RECURSIVE IngredientEdges(_, _)
+IngredientEdges(i, e) == IF e > Len(N(i).ins) THEN <<>> ELSE Repeat(N(i).ins[e], N(i).recipe[e]) \o IngredientEdges(i, e + 1)
+
+CombReq(i) ==
+  /\ N(i).type = "combiner" /\ S[i].pc = "req"
+  /\ LET r == ReserveAll(E, tc, <<N(i).ins[1]>>, Pid(i, 0), FALSE, <<>>) IN
+       /\ E' = r.E /\ tc' = r.tc /\ S' = [S EXCEPT ![i] = [@ EXCEPT !.pc = "waitp", !.toks = r.toks]]
+  /\ UNCHANGED <<W, place, ctr>> /\ Step
+
+CombPallet(i) ==
+  /\ N(i).type = "combiner" /\ S[i].pc = "waitp" /\ AnyTrig(S[i].toks)
+  /\ LET j  == S[i].toks[1][1]
+         d  == DoGet(E[j], Pid(i, 0), S[i].toks[1][2])
+         q  == d.r[2]
+         E1 == [E EXCEPT ![j] = d.s]
+         r  == ReserveAll(E1, tc, IngredientEdges(i, 2), Pid(i, 0), FALSE, <<>>)
+     IN /\ d.r[1] = "item"
+        /\ E' = r.E /\ tc' = r.tc
+        /\ place' = [place EXCEPT ![q] = <<"node", i>>]
+        /\ S' = [S EXCEPT ![i] = [@ EXCEPT !.pc = IF r.toks = <<>> THEN "reqw" ELSE "gather", !.toks = r.toks, !.item = q]]
+  /\ UNCHANGED <<W, ctr>> /\ Step
+
+\* one ingredient token triggered: take that item into the pallet (first triggered token in list order)
+CombGather(i) ==
+  /\ N(i).type = "combiner" /\ S[i].pc = "gather" /\ AnyTrig(S[i].toks)
+  /\ LET toks == S[i].toks
+         k    == FirstTrig(toks)
+         j    == toks[k][1]
+         d    == DoGet(E[j], Pid(i, 0), toks[k][2])
+         rest == Others(toks, k)
+     IN /\ d.r[1] = "item"
+        /\ E' = [E EXCEPT ![j] = d.s]
+        /\ place' = [place EXCEPT ![d.r[2]] = <<"pal", S[i].item>>]
+        /\ ctr' = [ctr EXCEPT ![i].org = Append(@, <<d.r[2], PosOfEdge(i, j)>>)]
+        /\ S' = [S EXCEPT ![i] = [@ EXCEPT !.pc = IF rest = <<>> THEN "reqw" ELSE "gather", !.toks = rest]]
+  /\ UNCHANGED <<tc, W>> /\ Step
+
+\* worker_thread.request() granted: the processing delay starts
+CombStart(i) ==
+  /\ N(i).type = "combiner" /\ S[i].pc = "reqw" /\ S[i].slots < 1
+  /\ S' = [S EXCEPT ![i] = [@ EXCEPT !.pc = "proc", !.rem = N(i).pd[(S[i].k % Len(N(i).pd)) + 1], !.slots = @ + 1]]
+  /\ UNCHANGED <<E, tc, W, place, ctr>> /\ Step
+
+CombSpawn(i) ==
+  /\ N(i).type = "combiner" /\ S[i].pc = "proc" /\ S[i].rem = 0
+  /\ W' = [W EXCEPT ![i] = Append(@, [pc |-> "offer", rem |-> 0, item |-> S[i].item, queue |-> <<>>, toks |-> <<>>, id |-> S[i].k + 1])]
+  /\ S' = [S EXCEPT ![i] = [@ EXCEPT !.pc = "req", !.item = 0, !.k = @ + 1]]
   /\ UNCHANGED <<E, tc, place, ctr>> /\ Step
 
 ---------------------------------------------------------------------------
@@ -294,6 +400,8 @@ NodeAct ==
      \/ SrcSetup(i) \/ SrcCreate(i) \/ SrcPut(i)
      \/ SinkStart(i) \/ SinkTake(i)
      \/ MachSetup(i) \/ MachReq(i) \/ MachPull(i)
+     \/ SplSetup(i) \/ SplReq(i) \/ SplChoose(i) \/ SplPull(i)
+     \/ CombReq(i) \/ CombPallet(i) \/ CombGather(i) \/ CombStart(i) \/ CombSpawn(i)
      \/ \E w \in 1..Len(W[i]) : WorkDone(i, w) \/ WorkPut(i, w) \/ WorkRelease(i, w)
 
 NodeUrgent(i) ==
@@ -301,10 +409,14 @@ NodeUrgent(i) ==
   \/ (t = "source" /\ S[i].pc \in {"setup", "gen"} /\ S[i].rem = 0)
   \/ (t = "source" /\ S[i].pc \in {"wait", "sub"} /\ AnyTrig(S[i].toks))
   \/ (t = "sink" /\ (S[i].pc = "start" \/ AnyTrig(S[i].toks)))
-  \/ (t = "machine" /\ S[i].pc = "setup" /\ S[i].rem = 0)
+  \/ (t \in {"machine", "splitter", "combiner"} /\ S[i].pc = "setup" /\ S[i].rem = 0)
   \/ (t = "machine" /\ S[i].pc = "req" /\ S[i].slots < N(i).wc)
   \/ (t = "machine" /\ S[i].pc = "wait" /\ AnyTrig(S[i].toks))
+  \/ (t = "splitter" /\ (S[i].pc = "req" \/ (S[i].pc = "wait" /\ AnyTrig(S[i].toks)) \/ (S[i].pc = "reqw" /\ S[i].slots < 1)))
+  \/ (t = "combiner" /\ (S[i].pc = "req" \/ (S[i].pc \in {"waitp", "gather"} /\ AnyTrig(S[i].toks))
+                          \/ (S[i].pc = "reqw" /\ S[i].slots < 1) \/ (S[i].pc = "proc" /\ S[i].rem = 0)))
   \/ \E w \in 1..Len(W[i]) : \/ (W[i][w].pc = "proc" /\ W[i][w].rem = 0)
+                              \/ W[i][w].pc = "offer"
                               \/ (W[i][w].pc \in {"wait", "sub"} /\ AnyTrig(W[i][w].toks))
                               \/ W[i][w].pc = "rel"
 Urgent == (\E i \in Nodes : NodeUrgent(i)) \/ (\E j \in Edges : AnyDue(E[j]))
@@ -331,15 +443,20 @@ LiveToks(j) == LiveNums(E[j])
 F_C01_Cap == \A j \in Edges : Len(E[j].putRes) + NInside(E[j]) <= C.edges[j].cap
 
 \* C03: every created item is in exactly one place, and the ground-truth place agrees with the containers
-HeldBy(i) == ((IF S[i].item # 0 THEN {S[i].item} ELSE {}) \cup {W[i][w].item : w \in 1..Len(W[i])}) \ {0}
+HeldBy(i) == ((IF S[i].item # 0 THEN {S[i].item} ELSE {}) \cup {W[i][w].item : w \in 1..Len(W[i])}
+              \cup UNION {{W[i][w].queue[k] : k \in 1..Len(W[i][w].queue)} : w \in 1..Len(W[i])}) \ {0}
+InPallet(x) == place[x][1] = "pal"
 F_C03_OnePlace ==
   /\ \A x \in Items :
         LET p == place[x] IN
         CASE p[1] = "edge" -> x \in InStore(p[2])
           [] p[1] \in {"src", "node"} -> x \in HeldBy(p[2])
+          [] p[1] = "pal" -> p[2] \in Items /\ place[p[2]][1] \in {"node", "edge", "sink", "disc"}
           [] OTHER -> TRUE
   /\ \A j \in Edges : \A x \in InStore(j) : place[x] = <<"edge", j>>
-  /\ \A i \in Nodes : \A x \in HeldBy(i) : place[x][2] = i /\ place[x][1] \in {"src", "node"}
+  /\ \A i \in Nodes : \A x \in HeldBy(i) :
+        \/ (place[x][2] = i /\ place[x][1] \in {"src", "node"})
+        \/ (InPallet(x) /\ place[place[x][2]] = <<"node", i>>)
   /\ \A j \in Edges : NInside(E[j]) = Cardinality(InStore(j))
 F_C03_Counts ==
   LET gen  == Cardinality({x \in Items : TRUE})
@@ -347,13 +464,15 @@ F_C03_Counts ==
       inN  == Cardinality({x \in Items : place[x][1] \in {"src", "node"}})
       disc == Cardinality({x \in Items : place[x][1] = "disc"})
       recv == Cardinality({x \in Items : place[x][1] = "sink"})
-  IN /\ gen = inE + inN + disc + recv
+      pk   == Cardinality({x \in Items : place[x][1] = "pal"})
+  IN /\ gen = inE + inN + pk + disc + recv
      /\ \A i \in Nodes : ctr[i].disc = Cardinality({x \in Items : place[x] = <<"disc", i>>})
                       /\ ctr[i].recv = Cardinality({x \in Items : place[x] = <<"sink", i>>})
 \* finite input, nothing urgent, no timer left: everything generated is received or discarded
-NoTimers == /\ \A i \in Nodes : S[i].pc \notin {"setup", "gen"} /\ \A w \in 1..Len(W[i]) : W[i][w].pc # "proc"
+NoTimers == /\ \A i \in Nodes : S[i].pc \notin {"setup", "gen", "proc"} /\ \A w \in 1..Len(W[i]) : W[i][w].pc # "proc"
             /\ \A j \in Edges : E[j].c.kind = "buffer" /\ E[j].items = <<>>
-F_C03_Quiescent == (~Urgent /\ NoTimers /\ C.drains) => \A x \in Items : place[x][1] \in {"sink", "disc"}
+F_C03_Quiescent == (~Urgent /\ NoTimers /\ C.drains) =>
+     \A x \in Items : place[x][1] \in {"sink", "disc"} \/ (InPallet(x) /\ place[place[x][2]][1] \in {"sink", "disc"})
 
 \* C04 on every edge at the end of an instant
 F_C04_EOI == ~Urgent => \A j \in Edges :
@@ -361,19 +480,37 @@ F_C04_EOI == ~Urgent => \A j \in Edges :
      /\ ~(E[j].getQ # <<>> /\ Len(E[j].getRes) < Len(E[j].ready))
 
 \* C08: work capacity
-F_C08_Cap == \A i \in Nodes : N(i).type = "machine" => (Len(W[i]) <= N(i).wc /\ S[i].slots <= N(i).wc /\ Len(W[i]) <= S[i].slots)
+F_C08_Cap == \A i \in Nodes : /\ N(i).type = "machine" => (Len(W[i]) <= N(i).wc /\ S[i].slots <= N(i).wc /\ Len(W[i]) <= S[i].slots)
+                              /\ N(i).type \in {"splitter", "combiner"} => (Len(W[i]) <= 1 /\ S[i].slots <= 1)
 
 \* C09
 F_C09_BlockingNoDiscard == \A i \in Nodes : N(i).blocking => ctr[i].disc = 0
 F_C09_NonBlockingNow == ~Urgent => \A i \in Nodes : (~N(i).blocking /\ N(i).type # "sink") =>
      /\ (N(i).type = "source" => S[i].pc \notin {"wait", "sub"})
-     /\ \A w \in 1..Len(W[i]) : W[i][w].pc = "proc"
+     /\ \A w \in 1..Len(W[i]) : W[i][w].pc = "proc" \/ N(i).type = "combiner"
+
+\* C16: a pallet in the hands of a combiner's worker carries exactly the recipe; a splitter's worker still has to emit
+\* exactly the remaining contents and then the pallet itself
+F_C16_Recipe == \A i \in Nodes : N(i).type = "combiner" => \A w \in 1..Len(W[i]) : W[i][w].item # 0 =>
+     LET q == W[i][w].item IN
+     \A e \in 2..Len(N(i).ins) :
+        Cardinality({x \in Items : place[x] = <<"pal", q>> /\ \E k \in 1..Len(ctr[i].org) : ctr[i].org[k] = <<x, e>>}) = N(i).recipe[e]
+F_C16_SplitterEmits == \A i \in Nodes : N(i).type = "splitter" => \A w \in 1..Len(W[i]) : W[i][w].item # 0 =>
+     LET wk == W[i][w]
+         todo == <<wk.item>> \o wk.queue
+         q == todo[Len(todo)]
+     IN /\ place[q] = <<"node", i>>
+        /\ {todo[k] : k \in 1..(Len(todo) - 1)} = {x \in Items : place[x] = <<"pal", q>>}
+        /\ Cardinality({todo[k] : k \in 1..Len(todo)}) = Len(todo)
 
 \* C10 at the end of an instant
 AllToks == UNION {{<<S[i].toks[k][1], S[i].toks[k][2]>> : k \in 1..Len(S[i].toks)} : i \in Nodes}
            \cup UNION {UNION {{<<W[i][w].toks[k][1], W[i][w].toks[k][2]>> : k \in 1..Len(W[i][w].toks)} : w \in 1..Len(W[i])} : i \in Nodes}
 F_C10_NoOrphan == \A j \in Edges : \A n \in LiveToks(j) : <<j, n>> \in AllToks
-F_C10_GrantedUsed == ~Urgent => \A j \in Edges : E[j].putRes = <<>> /\ E[j].getRes = <<>>
+F_C10_GrantedUsed == ~Urgent => \A j \in Edges :
+     /\ E[j].putRes = <<>>
+     /\ \A k \in 1..Len(E[j].getRes) : \E i \in Nodes : N(i).type = "splitter" /\ S[i].pc = "reqw" /\ S[i].slots = 1
+                                          /\ S[i].toks = <<<<j, E[j].getRes[k].n>>>>
 AvailUnres(j) == Len(E[j].ready) - Len(E[j].getRes)
 F_C10_TakeInput == ~Urgent => \A i \in Nodes :
      /\ (N(i).type = "sink") => \A k \in 1..Len(N(i).ins) : AvailUnres(N(i).ins[k]) <= 0
